@@ -216,7 +216,8 @@ c03h!(c03_route_prefix_of_service, route("org.varlink", "org.varlink.service", s
 c03h!(c03_route_empty, route("", ".M", stubs::ERR_IFACE_NOT_FOUND));
 
 // ---- VarlinkService::new: the advertised interface list ----------------------------------
-// (real hashbrown inserts with a constant hash: minutes in CBMC, thorough tier only)
+// NOT registered: two real hashbrown inserts (even with a constant hash) give no verdict within
+// 50 minutes (DESIGN B3); kept for the record.
 
 struct Named(&'static str);
 impl Interface for Named {
